@@ -1,6 +1,6 @@
 (** C10 — changing representation loses nothing: the obligations, written out in full. *)
 From Coq Require Import List NArith ZArith String.
-From SK Require Import lib.LGraph lib.StrJoin model.C10_Model proof.C10_Proof proof.C10_Hydrogen proof.C10_Routes proof.C10_GmlWrite proof.C10_HRound proof.C10_Routes2 proof.C10_Reindex proof.C10_MolGraph proof.C10_Smart proof.C10_GmlEH proof.C10_Select proof.C10_MolOk proof.C10_Full proof.C10_Attrs.
+From SK Require Import lib.LGraph lib.StrJoin model.C10_Model proof.C10_Proof proof.C10_Hydrogen proof.C10_Routes proof.C10_GmlWrite proof.C10_HRound proof.C10_Routes2 proof.C10_Reindex proof.C10_MolGraph proof.C10_Smart proof.C10_GmlEH proof.C10_Select proof.C10_MolOk proof.C10_Full proof.C10_Attrs proof.C10_Light.
 Import ListNotations.
 Local Open Scope Z_scope.
 
@@ -334,3 +334,19 @@ Theorem C10_changed_attributes_roundtrip :
     (forall u v, adj I' u v = adj c u v).
 Proof. exact attributes_roundtrip. Qed.
 Print Assumptions C10_changed_attributes_roundtrip.
+
+(** The light-weight builder MolToGraph.mol_to_graph(mol, light_weight=True) — one loop in which every atom adds its own
+    node and then its own bonds, so that neighbours may enter the graph before their turn — builds the same graph as
+    MolToGraph.transform (default flags): the same node dictionary at every id and the same bond dictionary at every pair.
+    Premises about RDKit (monitored: oracle clause rdkit-contract): [ab] lists for every atom exactly its bonds
+    (atom.GetBonds()), i.e. it agrees with the bond list of the molecule in both directions. *)
+Theorem C10_light_weight_same_graph :
+  forall (m : rmol) (ab : list (list (N * Z))),
+    wf_mol m = true -> List.length ab = List.length (fst m) ->
+    (forall i bs nb o, nth_error ab i = Some bs -> In (nb, o) bs -> bond_find (N.of_nat i) nb (snd m) = Some o) ->
+    (forall i nb o, bond_find i nb (snd m) = Some o -> exists bs, nth_error ab (N.to_nat i) = Some bs /\ In (nb, o) bs) ->
+    let g := mol_to_graph_light m ab false false in
+    let g' := mol_to_graph m false false in
+    (forall n, label g n = label g' n) /\ (forall u v, adj g u v = adj g' u v).
+Proof. exact light_eq. Qed.
+Print Assumptions C10_light_weight_same_graph.
